@@ -959,6 +959,14 @@ class Parser:
             op_token = self._advance()
             op = op_token.value
             argument = self._parse_unary_expression()
+            if self._check(TokenType.STARSTAR):
+                # -a ** b is ambiguous and therefore not in the grammar:
+                # the base of ** must be parenthesised, (-a) ** b or -(a ** b)
+                raise self._error(
+                    "Unary operator used immediately before exponentiation "
+                    "expression. Parenthesis must be used to disambiguate "
+                    "operator precedence"
+                )
             return UnaryExpression(op, argument)
 
         # Prefix increment/decrement
